@@ -33,7 +33,7 @@ const (
 func TestMain(m *testing.M) {
 	// every volume load allocates (and zeroes) several MB of needle map / leveldb buffers; collect less often
 	debug.SetGCPercent(400)
-	vlib.Rule("C03: rapid-generated histories (5-25 writes/overwrites/same-content rewrites/deletes over 5 keys, payload lengths 0,1,7,8,9,100 and random <=600, needle map kind memory|leveldb) are run on a clean volume; crash states (datLen, idxEntries) are taken at structured offsets of every record (boundary, +-1, mid-header, header end, mid-body, checksum, timestamp, padding) and random interior offsets, each with the largest admissible index prefix and a drawn shorter one; the EveryByte test enumerates every byte offset x every admissible index prefix of small histories. One evaluation = one crash state loaded, read back, written to, and re-opened. Non-trivial = the crash state tears a record or leaves >=1 complete record without its index entry. Distinct = distinct (history, datLen, idxEntries).")
+	vlib.Rule("C03: rapid-generated histories (5-25 writes/overwrites/same-content rewrites/deletes (3 of 4 deletes issued like the HTTP handler: read the needle, then delete with that hydrated object; the rest with a bare id+cookie needle) over 5 keys, payload lengths 0,1,7,8,9,100 and random <=600, needle map kind memory|leveldb) are run on a clean volume; crash states (datLen, idxEntries) are taken at structured offsets of every record (boundary, +-1, mid-header, header end, mid-body, checksum, timestamp, padding) and random interior offsets, each with the largest admissible index prefix and a drawn shorter one, plus, for up to 3 drawn deletes, the stop right after the delete and the torn / whole-but-unindexed next record; the EveryByte test enumerates every byte offset x every admissible index prefix of small histories. One evaluation = one crash state loaded, read back, written to, and re-opened. Non-trivial = the crash state tears a record or leaves >=1 complete record without its index entry. Distinct = distinct (history, datLen, idxEntries).")
 	vlib.Assume("Crash model of the property statement: .dat and .idx each keep a prefix (byte-level for .dat, entry-level for .idx); an index entry is never present without its complete data record; the .vif file is intact; the leveldb needle map directory is absent after the crash and rebuilt from the .idx prefix. Torn .idx entries and an index running ahead of the data file are outside the quantifier.")
 	vlib.Assume("Payload bytes are a deterministic function of (key, version), so every version of every key is recognisable; a read counts as wrong if it returns bytes that are neither the durable version nor a later written version of that key.")
 	vlib.Main(m)
@@ -69,15 +69,19 @@ func metaOf(data []byte) (name, mime string) {
 }
 
 type op struct {
-	del  bool
-	same bool // write again the content the key currently has (isFileUnchanged path)
-	key  uint64
-	n    int // payload length
-	ver  int // version number of the payload (assigned while running)
+	del     bool
+	viaRead bool // delete issued the way the HTTP handler does: read the needle, then delete with that object
+	same    bool // write again the content the key currently has (isFileUnchanged path)
+	key     uint64
+	n       int // payload length
+	ver     int // version number of the payload (assigned while running)
 }
 
 func (o op) String() string {
 	if o.del {
+		if o.viaRead {
+			return fmt.Sprintf("Dr(%x)", o.key)
+		}
 		return fmt.Sprintf("D(%x)", o.key)
 	}
 	s := ""
@@ -117,7 +121,7 @@ func genOps(t *rapid.T, minOps, maxOps int, maxLen int) []op {
 		k := rapid.SampledFrom(keys).Draw(t, "key")
 		switch c := rapid.IntRange(0, 19).Draw(t, "kind"); {
 		case c < 6:
-			ops[i] = op{del: true, key: k}
+			ops[i] = op{del: true, key: k, viaRead: rapid.IntRange(0, 3).Draw(t, "deleteViaRead") != 0}
 		case c == 6:
 			ops[i] = op{same: true, key: k}
 		default:
@@ -157,7 +161,11 @@ func runHistory(t failer, kind storage.NeedleMapKind, ops []op) *history {
 		e := effect{datBefore: fileSize(dat), idxBefore: int(fileSize(idx) / 16)}
 		switch {
 		case o.del:
-			if _, err := deleteBlob(s, o.key, cookieOf(o.key)); err != nil {
+			delFn := deleteBlob
+			if o.viaRead {
+				delFn = deleteLikeHandler
+			}
+			if _, err := delFn(s, o.key, cookieOf(o.key)); err != nil {
 				t.Fatalf("clean run: delete %x failed: %v", o.key, err)
 			}
 			if c := cur[o.key]; c.present {
@@ -452,7 +460,11 @@ func (h *history) crashCheck(datLen int64, n int, newStoreReopen bool, acceptEmp
 	if len(live) > 1 {
 		k := live[len(live)-1]
 		if len(d[k].data) > 0 { // (deleting an empty blob is a no-op in this code base: C01's subject)
-			if _, err := deleteBlob(s, k, cookieOf(k)); err != nil {
+			delFn := deleteLikeHandler // the request path of the volume server; bare-needle deletes are in the histories
+			if n%4 == 3 {
+				delFn = deleteBlob
+			}
+			if _, err := delFn(s, k, cookieOf(k)); err != nil {
 				return &violation{"write", fmt.Sprintf("delete of durable key %x after reopening failed: %v", k, err)}
 			}
 			d[k] = val{}
@@ -541,6 +553,18 @@ func (h *history) evalState(t failer, datLen int64, n int, seq int) bool {
 		cl = append(cl, "idx-empty")
 	} else if i := h.lastIdxOp(n); h.ops[i].del {
 		cl = append(cl, "last-idx-tombstone")
+		how := "bare-needle"
+		if h.ops[i].viaRead {
+			how = "read-then-delete"
+		}
+		switch {
+		case datLen == h.eff[i].datAfter:
+			cl = append(cl, "stop-right-after-delete:"+how)
+		case label == "boundary":
+			cl = append(cl, "delete-then-whole-unindexed-record:"+how)
+		default:
+			cl = append(cl, "delete-then-torn-record:"+how)
+		}
 	} else if h.ops[i].n == 0 {
 		cl = append(cl, "last-idx-empty-blob")
 	} else {
@@ -590,6 +614,36 @@ func TestPropCrashSampled(t *testing.T) {
 		}
 		seq := 0
 		h.evalState(t, h.datLen, h.idxN, seq)
+		// for up to 3 drawn effective deletes: the server stops right after the delete, or
+		// while the next record is being appended (torn / whole record without index entry)
+		var dels []int
+		for i, e := range h.eff {
+			if h.ops[i].del && e.idxAfter > e.idxBefore {
+				dels = append(dels, i)
+			}
+		}
+		if len(dels) > 0 {
+			k := 3
+			if k > len(dels) {
+				k = len(dels)
+			}
+			recs := h.records()
+			for _, j := range rapid.SliceOfNDistinct(rapid.IntRange(0, len(dels)-1), k, k, rapid.ID[int]).Draw(t, "deletes") {
+				i := dels[j]
+				e := h.eff[i]
+				seq++
+				h.evalState(t, e.datAfter, e.idxAfter, seq)
+				for _, r := range recs {
+					if h.eff[r].datBefore == e.datAfter { // the record appended next
+						nx := h.eff[r]
+						seq++
+						h.evalState(t, nx.datBefore+(nx.datAfter-nx.datBefore)/2, e.idxAfter, seq)
+						seq++
+						h.evalState(t, nx.datAfter, e.idxAfter, seq)
+					}
+				}
+			}
+		}
 		for _, off := range offs {
 			m := h.maxIdx(off)
 			seq++
